@@ -1,6 +1,54 @@
 """C13 - scheduled jobs run once, not early, survive crashes, and only if committed.
 
-(header completed at the end of the file's development; see MANIFEST)
+Ties Model/Sched.v (default scheduler, scheduled_jobs_v2) and Model/SchedLegacy.v (legacy scheduler,
+delayed_calls_v2) to the real code by driving REAL scheduler objects step by step, threads never started:
+
+  DefaultScheduler.schedule / _persist_job / _schedule_in_memory   inside real db_api.transaction() blocks that are
+                                                                   later committed or aborted          -> Persist/Commit/Rollback
+  DefaultScheduler._dispatcher         the real loop, run until it would wait (fake Condition)          -> Dispatch
+  DefaultScheduler._process_memory_job the real method in a gated thread (stops before _invoke_job and
+                                       before _delete_scheduled_job; a crash kills it there)            -> MemStart/MemInvoke/MemDelete
+  DefaultScheduler._process_store_jobs the same, incl. the real get_scheduled_jobs_to_start and
+                                       _capture_scheduled_job (compare-and-swap)                        -> PollSelect/PollCapture/PollInvoke/PollDelete
+  DefaultScheduler.has_scheduled_jobs  called inside/outside the open transaction                      -> Query
+  LegacyScheduler.schedule, _process_delayed_calls (gated before every target call and before
+  delete_calls), has_scheduled_jobs                                                                      -> LPersist .. LQuery
+  virtual clock = mistral_lib.utils.utc_now_sec; in-memory sqlite booted like DbTestCase; worker processes.
+
+A write by "another process" between the SELECT and the compare-and-swaps of a poll is injected behind the ORM's
+back (ops pselect/lselect with a third argument) - the only way to exercise the compare-and-swap inside one process.
+
+Suites: corpus (minimised cases), systematic (interleavings of per-actor tokens: memory path / store poll / crash /
+clock jumps; exhaustive in the thorough tier where <= 20000), default and legacy (seeded random scenarios, half of them
+drained: everybody dies, the clock passes every boundary, a fresh instance polls until idle), components
+(get_scheduled_jobs_to_start / _capture_scheduled_job / get_delayed_calls_to_start / _capture_calls on random tables
+vs candidates / cas / lcandidates). Every scenario is compared with `view (run cfg steps init)` evaluated in Coq.
+
+Oracle (no model): invocation log + rows of the real run judged against the property text - not early; never a job
+whose transaction rolled back or is still open; more than one invocation only if some capturer did not delete the job
+within the capture timeout; after a drain every committed job ran and no row is left; a store poll must take what is
+past execute_at+pickup and uncaptured/captured longer than the timeout ago and nothing captured more recently;
+has_scheduled_jobs(key, processing) == a row with that key the caller can see is (not) captured.
+
+FINDING on the unchanged tree (signature pending-query:reports-in-memory-job-without-matching-row): DefaultScheduler.
+has_scheduled_jobs answers True from its in-memory copy of a job whose scheduling transaction rolled back (also: whose
+row was meanwhile captured or finished by another scheduler). Model: qmem flag of cfg, generated into Gen/SchedQuery.v
+from the source by translate/tr_schedquery.py; theorems C13_pending_query_refuted / _current_code.
+
+Self-test (scratch worktree of /repo + the candidate fix for the finding so the baseline is green; VERIF_REPO=... ./check C13):
+  m1  _capture_scheduled_job without query_filter            -> VIOLATION captured-although-taken-by-another-process (+930 disagreements)
+  m2  get_scheduled_jobs_to_start: min_captured_at = now      -> VIOLATION recapture-within-timeout, early-or-recapture:store-query, ...
+  m3  _dispatcher pops half a second early (delay - 0.5, >= 1) -> VIOLATION early
+  m4  _process_memory_job deletes the row before invoking    -> VIOLATION never-ran (crash in between loses the job)
+  m5  pickup filter `<=` instead of `<`                       -> VIOLATION ... no-failing-input-found (harmless boundary change, 545 disagreements)
+  m6  legacy time_filter now + 2s                             -> VIOLATION early:legacy, early:legacy-poll
+  m7  legacy _capture_calls without query_filter             -> VIOLATION captured-although-taken-by-another-process:legacy
+  m8  _process_memory_job goes on after a failed capture     -> VIOLATION ran-twice, ran-rolled-back
+  m9  capture always expects captured_at NULL                 -> VIOLATION poll-selected-but-not-captured, never-ran, rows-left-after-drain
+  m13 has_scheduled_jobs eq/neq swapped                       -> VIOLATION pending-query:misses-job, pending-query:reports-nonexistent-job
+  m3 on the unpatched tree                                    -> two VIOLATION lines (the finding + early)
+Missed before the harness was strengthened: m7 (needed the injected foreign write), m4 (threads stopped at an
+unexpected gate were not tracked), m1 as ran-twice (a failed delete did not count as "finished").
 """
 import datetime
 import json
@@ -13,9 +61,27 @@ from harness.core import coq_N, coq_nat, coq_list, coq_bool
 GEN = ['SchedQuery']
 
 MANIFEST = {
-    'level_text': 'TBD',
-    'level_note': 'TBD',
-    'technique': 'Coq proof (invariants by induction over step lists) over hand model; differential correspondence',
+    'level_text': 'Coq theorems over step-granular executable models of both schedulers, each quantified over ALL step lists '
+                  '(any number of instances, jobs, transactions; any interleaving of persist/commit/rollback/dispatch/capture/'
+                  'invoke/delete/poll/crash/tick) and all configurations, proved by invariants + induction: not early; only '
+                  'committed jobs run, rolled back jobs never run; at most once under the explicit hypothesis that every capturer '
+                  'deletes within the capture timeout and nobody dies between invoke and delete (and a witness that the hypothesis '
+                  'is needed); eligibility after execute_at+pickup / captured_at+timeout and "an undisturbed poll of an idle '
+                  'instance invokes exactly what it selected" in every reachable state, hence crash recovery; pending query '
+                  'complete, exact when not answered from memory, refuted otherwise; legacy: not early, committed only, at most '
+                  'once unconditionally, crash recovery refuted (stuck for ever). Models tied to the code by differential runs of '
+                  'the real DefaultScheduler/LegacyScheduler methods under a virtual clock (thousands of step lists incl. crashes '
+                  'between any two steps, recaptures, failed deletes, batch limits, injected foreign writes) and of the real '
+                  'store query / compare-and-swap on random tables; implementation-side oracle states the property directly.',
+    'level_note': 'Modelled, not exercised on the implementation: a capture attempt while the scheduling transaction is open and a '
+                  'poll by another process over uncommitted rows (tx_lock + one shared sqlite connection serialise them); '
+                  'interleavings between the SELECT and the compare-and-swaps of one poll other than the injected foreign write. '
+                  'The model linearises each compare-and-swap; READ COMMITTED row locking of MySQL/PostgreSQL is trusted to make '
+                  'that sound. Time is the scheduler\'s own clock (utc_now_sec, whole seconds): sub-second truncation and '
+                  'fractional run_after are outside the model. Threads/GIL scheduling replaced by explicit steps; thread pool '
+                  'size not modelled (any submitted job may start). Translator tr_schedquery.py (AST shape of has_scheduled_jobs).',
+    'technique': 'Coq proof (invariants by induction over step lists) over hand models; source flag translator; '
+                 'step-driven differential correspondence with gated threads; property oracle',
     'design_ref': '6 C13',
 }
 
@@ -86,6 +152,18 @@ def boot():
     # the only time source of the anchored code is mistral_lib.utils.utc_now_sec, looked up at call time
     mlu.utc_now_sec = virtual_now
     _BOOTED[0] = True
+
+
+def clear_stale_begin_marker():
+    """oslo.db marks 'a BEGIN was emitted' on the (single, shared) sqlite connection; a session that is only cleaned up
+    by the garbage collector leaves the marker set and the next transaction would silently run in autocommit. No
+    transaction is open between two scenarios, so a marker found here is stale. Returns True if one was found."""
+    from mistral.db.sqlalchemy import base as db_base
+    c = db_base.get_engine().connect()
+    try:
+        return c.info.pop('in_transaction', None) is not None
+    finally:
+        c.close()
 
 
 def set_sched_conf(cfgv):
@@ -283,6 +361,7 @@ class World:
         self.db_api = db_api
         self.cfgv = cfgv
         set_sched_conf(cfgv)
+        stale = clear_stale_begin_marker()
         db_api.delete_scheduled_jobs()
         CLOCK[0] = 0
         STEPNO[0] = 0
@@ -299,7 +378,7 @@ class World:
         self.msteps = []
         self.holders = []
         self.fails = []        # oracle failures found while running: (signature, what)
-        self.stats = {}
+        self.stats = {'stale_sqlite_begin_marker_cleared': 1} if stale else {}
         self._orig_select = db_api.get_scheduled_jobs_to_start
 
         self.inject = 0
@@ -577,11 +656,16 @@ class World:
                         kinds.append('already-run-and-deleted')
                     elif (row[0][2] is not None) != processing:
                         kinds.append('captured-by-another-thread' if not processing else 'not-captured')
-                sig = 'pending-query:reports-in-memory-job-without-matching-row'
-                what = ('has_scheduled_jobs(key=%r, processing=%s) on instance %d answers True although no visible row with that key '
-                        'is %s; the in-memory copies it answered from: %s' % (
-                            KEYS[key], processing, i, 'being processed' if processing else 'waiting (uncaptured)',
-                            sorted(set(kinds)) or memj))
+                if memj:
+                    sig = 'pending-query:reports-in-memory-job-without-matching-row'
+                    what = ('has_scheduled_jobs(key=%r, processing=%s) on instance %d answers True although no visible row with that '
+                            'key is %s; in-memory copies of jobs with that key held by the instance: %s' % (
+                                KEYS[key], processing, i, 'being processed' if processing else 'waiting (uncaptured)',
+                                sorted(set(kinds)) or memj))
+                else:
+                    sig = 'pending-query:reports-nonexistent-job'
+                    what = ('has_scheduled_jobs(key=%r, processing=%s) on instance %d answers True although no visible row with that '
+                            'key is %s' % (KEYS[key], processing, i, 'being processed' if processing else 'waiting (uncaptured)'))
             else:
                 sig = 'pending-query:misses-job'
                 what = ('has_scheduled_jobs(key=%r, processing=%s) on instance %d answers False although a visible row with that key '
@@ -725,11 +809,6 @@ def parse_term(s):
 
 def unsome(x):
     return x[1] if isinstance(x, tuple) and len(x) == 2 and x[0] == 'some' else x
-
-
-def flat(t):
-    """Coq prints left-nested pairs flat; make sure we have a flat python tuple."""
-    return tuple(t)
 
 
 def model_view(s):
@@ -917,6 +996,7 @@ class LWorld:
         self.db_api = db_api
         self.cfgv = cfgv            # (batch,)
         cfg.CONF.set_override('batch_size', cfgv[0], group='scheduler')
+        clear_stale_begin_marker()
         db_api.delete_delayed_calls()
         CLOCK[0] = 0
         STEPNO[0] = 0
@@ -1556,7 +1636,8 @@ def run_tasks(tasks):
     """Run tasks in worker processes forked before this process touches the database."""
     import concurrent.futures
     import multiprocessing
-    ctxm = multiprocessing.get_context('fork')
+    # fork is only safe while this process has not opened the (in-memory) database itself
+    ctxm = multiprocessing.get_context('spawn' if _BOOTED[0] else 'fork')
     with concurrent.futures.ProcessPoolExecutor(max_workers=min(core.NPROC, max(1, len(tasks))), mp_context=ctxm) as ex:
         return list(ex.map(work, tasks))
 
@@ -1654,6 +1735,56 @@ def judge_components(ctx, cases):
     ctx.cov['suites'].setdefault(suite, {'evaluations': 0, 'distinct_nontrivial': 0})['kinds'] = kinds
 
 
+def shrink(kind, cfgv, ops, sig, budget=120):
+    """Greedy removal of ops while the oracle failure with this signature persists (implementation only)."""
+    runner = run_ops if kind == 'default' else lrun_ops
+
+    def fails(o):
+        try:
+            r = runner(tuple(cfgv), o)
+        except Exception:
+            return None
+        return r if any(f[0] == sig for f in r['fails']) else None
+    best = fails(ops)
+    if best is None:
+        return ops, None
+    cur = best['ops']
+    used = 1
+    changed = True
+    while changed and used < budget:
+        changed = False
+        i = len(cur) - 1
+        while i >= 0 and used < budget:
+            cand = cur[:i] + cur[i + 1:]
+            used += 1
+            r = fails(cand)
+            if r is not None:
+                cur = r['ops']
+                best = r
+                changed = True
+            i -= 1
+    what = [f[1] for f in best['fails'] if f[0] == sig][0]
+    return cur, what
+
+
+def shrink_failures(ctx, limit=4):
+    """Replace the first replay of each new failure signature by a minimised one (scenario failures only)."""
+    seen = set()
+    known = {k['signature'] for k in core.load_known().get('open', []) if k['property'] == ctx.prop}
+    for f in ctx.failures:
+        sig = f['signature']
+        if sig in seen or sig in known:
+            continue
+        seen.add(sig)
+        rp = f['replay']
+        if len(seen) > limit or 'ops' not in rp or len(rp['ops']) <= 4:
+            continue
+        ops, what = shrink(rp.get('kind', 'default'), rp['cfg'], rp['ops'], sig)
+        if what is not None:
+            f['replay'] = dict(rp, ops=ops, shrunk_from=len(rp['ops']))
+            f['what'] = what
+
+
 def chunks(lst, n):
     return [lst[i:i + n] for i in range(0, len(lst), n)]
 
@@ -1719,6 +1850,7 @@ def run(ctx):
         else:
             comp.extend(t)
     judge_components(ctx, comp)
+    shrink_failures(ctx)
     ctx.cov['modelled_not_exercised'] = [
         'in-memory capture attempt while the scheduling transaction is still open (tx_lock serialises it inside one process)',
         'store poll by another process while a row is uncommitted (single shared sqlite connection)',
@@ -1739,6 +1871,7 @@ def search(ctx):
                 continue
             for sig, what in r['fails']:
                 ctx.fail(sig, what, {'kind': r['kind'], 'cfg': r['cfg'], 'ops': r['ops'], 'signature': sig})
+    shrink_failures(ctx)
 
 
 def replay(obj):
